@@ -22,9 +22,10 @@ func c15Lit(r *rand.Rand) gast.Expr {
 	case 3, 4, 5:
 		return gast.IntLit{V: []int64{65535, 65536, 70000, 1 << 40}[r.Intn(4)]}
 	case 6, 7:
-		return gast.FloatLit{V: []float64{0.5, 1.5, 2, 100.25}[r.Intn(4)]}
+		// some floats print like one of the large integers above
+		return []gast.Expr{gast.FloatLit{V: 0.5}, gast.FloatLit{V: 1.5}, gast.FloatLit{V: 2}, gast.FloatLit{V: 100.25}, gast.FloatLit{V: 70000, Spelling: "70000.0"}, gast.FloatLit{V: 65536, Spelling: "65536.0"}}[r.Intn(6)]
 	case 8:
-		return gast.StrLit{V: []string{"s", "", "héllo"}[r.Intn(3)]}
+		return gast.StrLit{V: []string{"s", "", "héllo", "70000", "65536", "1.5"}[r.Intn(6)]}
 	}
 	return gast.BoolLit{V: r.Intn(2) == 0}
 }
